@@ -1,6 +1,21 @@
 import GoatProofs.C07Audit
+import GoatProofs.C07Decoder
+import GoatProofs.C07JWS
+import GoatProofs.C07JWT
+import GoatProofs.C07JWE
+import GoatProofs.C07JWK
+import GoatProofs.C07Custom
+import GoatProofs.C07KW
 /-
-C07 — no attacker-supplied input can crash the process.  Umbrella module: the accounting theorems
-(C07Audit), the lemma kit (Lemmas/C07NoPanic), the decoder/encoder theorems (C07Decoder) and the
-no_panic theorems over the other models (C07Entry*) are imported here as they exist.
+C07 — no attacker-supplied input can crash the process.  Umbrella module.
+
+  C07Audit    accounting of every syntactic panic-capable site (tie to the source)
+  C07Decoder  internal/jsonutils Decoder + Encoder, internal/cborutils Decoder, error rendering
+  C07JWS      jws.ParseCompact / Parse / Verify / VerifyContent               (models of C01/C02)
+  C07JWT      jwt.Parser.Parse, claims, the library's key finders, registry   (models of C01/C03/C04)
+  C07JWE      jwe.Parse / ParseJSON / Decrypt / Compact / MarshalJSON          (model of C05/C06)
+  C07JWK      jwk.ParseKey / ParseMap / ParseSet / DecodePEM / MarshalJSON / Thumbprint, cose.ParseMap
+  C07Custom   jwt.Claims.DecodeCustom                                          (model of C10)
+  C07KW       key unwrapping and content decryption of every registered algorithm (models of C12)
+  Lemmas/C07NoPanic   PO.NoPanic / NoPanicOn / Post and the `nopanic`, `popost` tactics
 -/
